@@ -212,6 +212,9 @@ def finish_obligations(rec: Record, ctx: Ctx, path_idx: int, witness_exprs: Opti
             if fid is not None:
                 ob.status = "known_finding"
                 ob.info = dict(ob.info, finding=fid)
+        gen = ctx.__dict__.get("generic_ops")
+        if gen:
+            ob.info = dict(ob.info, generic_ops=sorted(gen))
         d = {
             "name": ob.name,
             "path": path_idx,
